@@ -176,3 +176,14 @@ def _canonical_replay(kind, max_evl, log):
     forces = [[0.01, 0, 0]] + [[1.0, 0, 0]] * max_evl
     energies = [[-1.0 - 0.1 * i] for i in range(max_evl + 1)]
     return dict(max_evl=max(max_evl, 2), forces=forces, energies=energies, tol=0.1, log=log, expect_evals=1, expect_dE=-1.0, expect_not_converged=False)
+
+
+# ---- shared obligation: steepest descent lowers the energy only if the force it is handed is minus the gradient in every force-evaluation branch ----
+from . import C01 as _C01_mod  # noqa: E402
+
+
+@obligation(PID, "b", title="[shared with C01.h] " + [e for e in __import__("engine.ob", fromlist=["REGISTRY"]).REGISTRY["C01"] if e[1] is _C01_mod.ob_h][0][3])
+def ob_b_shared(ob):
+    """steepest descent lowers the energy only if the force it is handed is minus the gradient in every force-evaluation branch"""
+    ob.note("this obligation is the one registered as C01.h; it is also decided here because steepest descent lowers the energy only if the force it is handed is minus the gradient in every force-evaluation branch")
+    _C01_mod.ob_h(ob)
